@@ -40,7 +40,27 @@ package state
 // ---- aborting a change without tasks changes nothing Prune looks at -------------------------
 
 //@ func (*Change).abortTasks
-//@   props C09
+//@   props C09 C01
+//@   guard call SetStatus: [table] abortStep(effSt(arg0), arg1)
+//@   ensures [step] forall x *Task :: {x.status} x.status == old(x.status) || abortStep(old(effSt(x)), x.status)
+//@   ensures [waited] forall x *Task :: {x.waitedStatus} x.waitedStatus == old(x.waitedStatus)
+//@   ensures [seen-mono] forall k string :: {seenTasks[k]} old(seenTasks[k]) ==> seenTasks[k]
+//@   ensures [lanes-mono] forall k int :: {abortedLanes[k]} old(abortedLanes[k]) ==> abortedLanes[k]
+//@   loop 0: invariant forall x *Task :: {x.status} x.status == old(x.status) || abortStep(old(effSt(x)), x.status)
+//@   loop 0: invariant forall x *Task :: {x.waitedStatus} x.waitedStatus == old(x.waitedStatus)
+//@   loop 0: invariant forall k string :: {seenTasks[k]} old(seenTasks[k]) ==> seenTasks[k]
+//@   loop 0: invariant forall k int :: {abortedLanes[k]} old(abortedLanes[k]) ==> abortedLanes[k]
+//@   ensures [ids] forall x *Task :: {x.id} x.id == old(x.id)
+//@   ensures [handled] (forall a *Task, b *Task :: {a.id, b.id} a.id == b.id ==> a == b) ==> forall x *Task :: {x.status} seenTasks[x.id] && !old(seenTasks[x.id]) ==> !isSource(effSt(x))
+//@   ensures [input-seen] forall j int :: 0 <= j && j < old(len(tasks)) ==> seenTasks[old(tasks[j]).id]
+//@   loop 0: invariant (forall a *Task, b *Task :: {a.id, b.id} a.id == b.id ==> a == b) ==> forall x *Task :: {x.status} seenTasks[x.id] && !old(seenTasks[x.id]) ==> !isSource(effSt(x))
+//@   loop 0: invariant forall j int :: 0 <= j && j < i ==> seenTasks[tasks[j].id]
+//@   loop 2: invariant forall j int :: 0 <= j && j <= i ==> seenTasks[tasks[j].id]
+//@   loop 0: invariant forall x *Task :: {x.id} x.id == old(x.id)
+//@   loop 0: invariant 0 <= i && i <= len(tasks) && old(len(tasks)) <= len(tasks)
+//@   loop 0: invariant forall j int :: 0 <= j && j < old(len(tasks)) ==> tasks[j] == old(tasks[j])
+//@   loop 2: invariant 0 <= i && i < len(tasks) && old(len(tasks)) <= len(tasks) && t == tasks[i]
+//@   loop 2: invariant forall j int :: 0 <= j && j < old(len(tasks)) ==> tasks[j] == old(tasks[j])
 //@   ensures old(len(tasks)) == 0 ==> (forall x *Change :: x.readyTime == old(x.readyTime) && x.spawnTime == old(x.spawnTime) && x.taskIDs == old(x.taskIDs) && x.id == old(x.id)) && (forall y *State :: y.changes == old(y.changes) && y.tasks == old(y.tasks))
 //@   loop 0: invariant old(len(tasks)) == 0 ==> i == 0 && len(tasks) == 0 && len(lanes) == 0 && (forall x *Change :: x.readyTime == old(x.readyTime) && x.spawnTime == old(x.spawnTime) && x.taskIDs == old(x.taskIDs) && x.id == old(x.id)) && (forall y *State :: y.changes == old(y.changes) && y.tasks == old(y.tasks))
 
@@ -85,6 +105,8 @@ package state
 //@   guard mapdelete State.notices: m == s.notices && has(m, key) && expiredAt(m[key].lastOccurred, m[key].expireAfter, now)
 //@   guard call (*Task).ID: [task-of-dropped-change] chg.readyTime == readyTime && mayDrop(readyTime, now.Add(-pruneWait), readyChangesCount, maxReadyChanges) && 0 <= idx5 && idx5 < len(ranged5) && len(ranged5) == len(chg.taskIDs) && arg0 == ranged5[idx5] && (has(chg.state.tasks, chg.taskIDs[idx5]) ==> arg0 == chg.state.tasks[chg.taskIDs[idx5]])
 //@   guard mapdelete State.tasks: [which] m == s.tasks && (key == t.id || (has(m, key) && m[key] == t && t.state.changes[t.change] == nil && t.spawnTime.Before(now.Add(-pruneWait))))
+//@   loop 3: step [discount] !readyTime.IsZero() && before(has(s.changes, chg.id)) && !has(s.changes, chg.id) ==> readyChangesCount == old(readyChangesCount) - 1
+//@   loop 3: step [count-only-for-removed] readyChangesCount == old(readyChangesCount) || (readyChangesCount == old(readyChangesCount) - 1 && !readyTime.IsZero() && !has(s.changes, chg.id))
 //@   loop 5: invariant -1 <= idx5 && idx5 < len(ranged5) && len(ranged5) == len(chg.taskIDs)
 //@   loop 5: invariant chg.readyTime == readyTime && mayDrop(readyTime, now.Add(-pruneWait), readyChangesCount, maxReadyChanges)
 //@   loop 5: invariant forall j int :: {ranged5[j]} idx5 < j && j < len(ranged5) && has(chg.state.tasks, chg.taskIDs[j]) ==> ranged5[j] == chg.state.tasks[chg.taskIDs[j]]
